@@ -297,6 +297,42 @@ done:
     free(frame); free(outb);
 }
 
+/* DRT wlog srcLen seed ochunk ichunk maxWlog : real multi-block frame (level 3, given windowLog) through a heap
+ * ZSTD_decompressStream with small chunks; checks the output and the allocation peak */
+static void do_drt(char** a) {
+    unsigned wlog = (unsigned)hx(a[1]); size_t srcLen = (size_t)hx(a[2]); unsigned seed = (unsigned)hx(a[3]);
+    size_t ochunk = (size_t)hx(a[4]), ichunk = (size_t)hx(a[5]); unsigned maxWlog = (unsigned)hx(a[6]);
+    unsigned char* src = (unsigned char*)malloc(srcLen + 1); size_t cap = ZSTD_compressBound(srcLen) + 64;
+    unsigned char* comp = (unsigned char*)malloc(cap); unsigned char* back = (unsigned char*)malloc(srcLen + ochunk + 1);
+    zv_count cnt; ZSTD_customMem cm; ZSTD_DCtx* d; ZSTD_CCtx* c = ZSTD_createCCtx(); size_t cs, ip = 0, op = 0, r = 1; int bad = 0;
+    memset(&cnt, 0, sizeof cnt); cm.customAlloc = zv_cmalloc; cm.customFree = zv_cfree; cm.opaque = &cnt;
+    gen_data(src, srcLen, seed);
+    ZSTD_CCtx_setParameter(c, ZSTD_c_compressionLevel, 3); ZSTD_CCtx_setParameter(c, ZSTD_c_windowLog, (int)wlog);
+    ZSTD_CCtx_setParameter(c, ZSTD_c_contentSizeFlag, (int)(seed & 1));
+    {   ZSTD_inBuffer in = { src, srcLen, 0 }; ZSTD_outBuffer out = { comp, cap, 0 };   /* streaming: no single-segment frame */
+        size_t e = ZSTD_compressStream2(c, &out, &in, ZSTD_e_continue);
+        while (!ZSTD_isError(e)) { e = ZSTD_compressStream2(c, &out, &in, ZSTD_e_end); if (e == 0) break; }
+        cs = ZSTD_isError(e) ? e : out.pos; }
+    ZSTD_freeCCtx(c);
+    if (ZSTD_isError(cs)) { printf("COMPRESS-ERR %s\n", ZSTD_getErrorName(cs)); free(src); free(comp); free(back); return; }
+    d = ZSTD_createDCtx_advanced(cm);
+    ZSTD_DCtx_setParameter(d, ZSTD_d_windowLogMax, (int)maxWlog);
+    while (r != 0) {
+        ZSTD_inBuffer in; ZSTD_outBuffer out; size_t il = cs - ip < ichunk ? cs - ip : ichunk;
+        in.src = comp + ip; in.size = il; in.pos = 0; out.dst = back + op; out.size = ochunk; out.pos = 0;
+        if (op + ochunk > srcLen + ochunk) { bad = 1; break; }
+        r = ZSTD_decompressStream(d, &out, &in);
+        if (ZSTD_isError(r)) break;
+        if (in.pos == 0 && out.pos == 0 && il == 0) { bad = 1; break; }
+        ip += in.pos; op += out.pos;
+        if (op > srcLen) { bad = 1; break; }
+    }
+    if (ZSTD_isError(r)) printf("%s peak=%llx\n", ZSTD_getErrorCode(r) == ZSTD_error_frameParameter_windowTooLarge ? "W" : ZSTD_getErrorName(r), (u64)cnt.peak);
+    else if (bad || op != srcLen || memcmp(back, src, srcLen)) printf("BADDECODE peak=%llx\n", (u64)cnt.peak);
+    else printf("OK peak=%llx sizeof=%llx live=%llx\n", (u64)cnt.peak, (u64)ZSTD_sizeof_DCtx(d), (u64)cnt.live);
+    ZSTD_freeDCtx(d); free(src); free(comp); free(back);
+}
+
 /* DDICT placement size dictSize byRef : static DDict inside guard pages, then used to decode a frame */
 static void do_ddict(char** a) {
     unsigned placement = (unsigned)hx(a[1]); size_t size = (size_t)hx(a[2]); size_t dictSize = (size_t)hx(a[3]); int byRef = (int)hx(a[4]);
@@ -382,6 +418,7 @@ int main(void) {
         else if (!strcmp(a[0], "CDICT")) do_cdict(a);
         else if (!strcmp(a[0], "DSTREAM")) do_dstream(a, n);
         else if (!strcmp(a[0], "DDICT")) do_ddict(a);
+        else if (!strcmp(a[0], "DRT")) do_drt(a);
         else if (!strcmp(a[0], "HEAP")) do_heap(a);
         else if (!strcmp(a[0], "SIZES")) printf("%llx %llx %llx %llx\n", (u64)sizeof(ZSTD_CCtx), (u64)sizeof(ZSTD_DCtx), (u64)sizeof(ZSTD_CDict), (u64)sizeof(ZSTD_DDict));
         else printf("UNKNOWN-CASE %s\n", a[0]);
